@@ -175,6 +175,7 @@ def main(argv=None):
 
 _JOBS = []
 _CTX = None
+FALLBACK_ONLY = set()      # jobs whose symbolic part killed its worker: only the battery fallback is run (fresh process)
 MAX_REPLAYED_PER_OBLIGATION = 48
 REPLAY_BUDGET_S = {"quick": 90, "thorough": 900}
 
@@ -227,6 +228,8 @@ def _run_jobs(njobs, nproc):
     pending = list(range(njobs))
     running = {}     # conn -> (index, process)
     results = []
+    retried = set()
+    dead_notes = {}
     while pending or running:
         while pending and len(running) < nproc:
             i = pending.pop(0)
@@ -244,7 +247,18 @@ def _run_jobs(njobs, nproc):
                 pr.join(1)
                 r = _dead_result(i, "worker process died without a result (exit code %s): out of memory under the per-worker "
                                     "cap, or a solver abort" % pr.exitcode)
-            results.append(r)
+            if r["rec"]["notes"] and "worker process died" in r["rec"]["notes"][0] and i not in retried:
+                # the symbolic part killed its process: run the property's battery for this obligation in a fresh one
+                retried.add(i)
+                FALLBACK_ONLY.add(i)
+                pending.append(i)
+                dead_notes[i] = r["rec"]["notes"][0]
+            else:
+                if i in dead_notes:
+                    r["rec"]["notes"].insert(0, dead_notes[i])
+                    if r["rec"]["status"] == "held":
+                        r["rec"]["status"] = "inconclusive"
+                results.append(r)
             conn.close()
             pr.join(5)
     return results
@@ -271,6 +285,8 @@ def _work(i):
     ctx = oblig.ObCtx(sub, ob, mirs[profile])
     t1 = time.time()
     try:
+        if i in FALLBACK_ONLY:
+            raise LookupError("the symbolic exploration of this obligation ended its worker process (memory cap / solver abort)")
         ob.func(ctx)
     except (sym.Unsupported, LookupError) as e:
         ctx.inconclusive("%s: %s" % (type(e).__name__, e))
